@@ -390,3 +390,54 @@ def factory_counter(model, owner_module, factory):
     if isinstance(body, _ast.Attribute) and isinstance(body.value, _ast.Name) and model.maybe_cls(body.value.id) is not None:
         return body.value.id, body.attr
     return None
+
+
+_PY_TEXT = {
+    "PY1": "no closure created per loop iteration reads the loop's variables late while being stored for later use (late binding: every stored closure would see the last value)",
+    "PY2": "no one-shot iterator (generator expression, map / filter / zip / reversed / enumerate object bound to a name) is consumed twice or inside a repeated loop",
+    "PY3": "no container created outside a loop is stored into a collection and then changed in place in that loop without being rebound (all stored entries would be one object)",
+    "PY4": "no mutable default argument that the function changes or keeps, no `[<mutable>] * n`, no dict.fromkeys(keys, <mutable>)",
+    "PY5": "no truth test of a value declared Optional[T] where T has falsy legitimate values (0, '', a zero-valued IntEnum member, an object with __len__ / __bool__): None is tested with `is None`",
+}
+
+
+def property_scope(prop_id: str):
+    """Modules a property rests on for the data-model lints: the files its anchors name (read from /verif/properties.jsonl, which is given and fixed)."""
+    import json as _json
+    import os as _os
+    path = _os.path.join(_os.path.dirname(_os.path.dirname(_os.path.dirname(_os.path.abspath(__file__)))), "properties.jsonl")
+    files = set()
+    with open(path) as fh:
+        for line in fh:
+            line = line.strip()
+            if not line:
+                continue
+            d = _json.loads(line)
+            if d.get("id") == prop_id:
+                for f in d.get("anchors", {}).get("files", []):
+                    files.add(f)
+    return files
+
+
+def python_slips_rule(model, rep, prop_id: str):
+    """Slips of the Python data model in the modules this property rests on (qcolint.pylints): reported only in shapes in which they are certain."""
+    from ..pylints import scan
+    files = property_scope(prop_id)
+    if not files:
+        raise AnalysisError(f"{prop_id}: no anchor files in properties.jsonl")
+
+    def keep(mod) -> bool:
+        rel = mod.relpath.replace("\\", "/")
+        return rel in files
+    slips, n = scan(model, keep)
+    for k, txt in _PY_TEXT.items():
+        rep.rule(f"{prop_id}.{k}", txt + " -- in the files this property's anchors name")
+    rep.floor(f"{prop_id}.PY functions scanned for data-model slips", n, 5)
+    rep.analysed[f"{prop_id}.PY scope"] = sorted(files)
+    by_kind = {}
+    for sl in slips:
+        by_kind.setdefault(sl.kind, []).append(sl)
+        rep.fail(f"{prop_id}.{sl.kind}", f"{sl.fn.qualname}[{sl.detail}]", sl.loc, found=sl.what[:300], required=_PY_TEXT[sl.kind][:120], what=sl.what, detail=sl.detail)
+    for k in _PY_TEXT:
+        if k not in by_kind:
+            rep.ok(f"{prop_id}.{k}", f"{prop_id} modules[{k}]", sorted(files)[0], found=f"none in {n} functions of {len(files)} anchor files", required="none")
